@@ -291,7 +291,7 @@ class AppTracker(object):
         cb = None
         if with_cb:
             def cb(value, _rec=rec):
-                peer_has = bool(self.deliveries.get(_rec["id"])) if _rec["id"] else None
+                peer_has = bool(self.deliveries.get(_rec["id"])) if _rec["id"] else _rec.get("delivered", 0) > 0
                 _rec["cb"].append((w.clock.now, value, peer_has))
                 self.c.inc("callbacks")
                 e = self.tap.ends.get(id(_rec["conn"]))
